@@ -308,7 +308,7 @@ theorem SView.startpoints (S : SView c n sp ep m0 m) (hnbo : ∀ q ∈ c.nodes, 
       injection ht with ht
       subst ht
       simp only [List.mem_cons, List.not_mem_nil, or_false] at hm
-      rcases satTy_cases ep with h | h <;> rw [h] at hm <;> rcases hm with hm | hm <;> exact absurd hm (by decide)
+      rcases satTy_cases ep with h | h | h <;> rw [h] at hm <;> rcases hm with hm | hm <;> exact absurd hm (by decide)
     · injection e with e1 e2
       subst e2
       simp only [] at ht
